@@ -26,6 +26,9 @@ pub struct SeqCase {
     /// hex of the terminal's positive acknowledgement (None: 80 00 00); the control field 80 00 may carry a data block
     #[serde(default)]
     pub ack: Option<String>,
+    /// the connection accepts at most this many bytes per write (short writes); None = whole buffers
+    #[serde(default)]
+    pub write_limit: Option<usize>,
 }
 /// positive acknowledgements a terminal may send: empty, with a data block (as in the Feig extension), extended length form
 pub const ACKS: [&str; 7] = ["800000", "80000100", "800003060f00", "800004061e016c", "8000ff0000", "8000ff0300aabbcc", "800002ffff"];
@@ -102,7 +105,8 @@ pub fn check_seq(m: &Model, c: &SeqCase) -> CheckResult {
     let ack = c.ack.as_ref().map(|a| unhex(a)).unwrap_or(ACK.to_vec());
     let mut script = vec![ack.clone()];
     script.extend(replies.iter().cloned());
-    let peer = Peer::scripted(script, trailing.clone(), c.chunks.clone());
+    let mut peer = Peer::scripted(script, trailing.clone(), c.chunks.clone());
+    peer.write_limit = c.write_limit;
     let run = guard(|| (s.run)(&cmd, peer, replies.len() + 3)).map_err(|p| Violation::new("seq", sig("C05", &c.seq, "panic"), p, input.clone()))?;
     if run.bad_command.is_some() {
         return Ok(());
@@ -298,8 +302,26 @@ pub fn check_fault(m: &Model, c: &SeqCase, f: &Fault) -> CheckResult {
                 return Ok(());
             }
         }
+        k if k.starts_with("read-error:") => {
+            // the bytes in front of the error must not be a complete packet
+            if fb.len() >= 3 {
+                let (h, l) = if fb[2] == 0xff { if fb.len() < 5 { (5, 1) } else { (5, u16::from_le_bytes([fb[3], fb[4]]) as usize) } } else { (3, fb[2] as usize) };
+                if fb.len() >= h + l {
+                    return Ok(());
+                }
+            }
+        }
         _ => return Ok(()),
     }
+    let end_error = match f.kind.strip_prefix("read-error:") {
+        Some("reset") => Some(std::io::ErrorKind::ConnectionReset),
+        Some("aborted") => Some(std::io::ErrorKind::ConnectionAborted),
+        Some("pipe") => Some(std::io::ErrorKind::BrokenPipe),
+        Some("timedout") => Some(std::io::ErrorKind::TimedOut),
+        Some("other") => Some(std::io::ErrorKind::Other),
+        Some(_) => return Ok(()),
+        None => None,
+    };
     let cmd = unhex(&c.cmd);
     let mut script: Vec<Vec<u8>> = vec![];
     if f.pos == 0 {
@@ -322,7 +344,9 @@ pub fn check_fault(m: &Model, c: &SeqCase, f: &Fault) -> CheckResult {
         };
         script.push(cont);
     }
-    let peer = Peer::scripted(script, vec![], c.chunks.clone());
+    let mut peer = Peer::scripted(script, vec![], c.chunks.clone());
+    peer.end_error = end_error;
+    peer.write_limit = c.write_limit;
     let run = guard(|| (s.run)(&cmd, peer, before + 4)).map_err(|p| Violation::new("fault", sig("C06", &c.seq, "panic"), p, input.clone()))?;
     if run.bad_command.is_some() {
         return Ok(());
@@ -477,7 +501,7 @@ pub fn run_c05(tier: Tier) -> i32 {
             let trailing: Vec<u8> = if k % 3 == 0 { vec![] } else { (0..(k % 64)).map(|x| (x * 37 + k) as u8).collect() };
             // short scripts with every form of the positive acknowledgement, longer ones with a rotating one
             let ack = if sc.len() <= 2 { None } else { Some(ACKS[k % ACKS.len()].to_string()).filter(|a| a != "800000") };
-            let c = SeqCase { seq: s.name.to_string(), cmd: cmd.clone(), replies, trailing: hex(&trailing), chunks: CHUNKINGS[k % 4].to_vec(), ack };
+            let c = SeqCase { seq: s.name.to_string(), cmd: cmd.clone(), replies, trailing: hex(&trailing), chunks: CHUNKINGS[k % 4].to_vec(), ack, write_limit: if k % 5 == 3 { Some([1usize, 2, 3, 5][k / 5 % 4]) } else { None } };
             if sc.len() <= 2 {
                 for a in &ACKS[1..] {
                     let c2 = SeqCase { ack: Some(a.to_string()), ..c.clone() };
@@ -487,6 +511,9 @@ pub fn run_c05(tier: Tier) -> i32 {
                 }
             } else if c.ack.is_some() {
                 st.class("acknowledgement-with-data-block-or-extended-length");
+            }
+            if c.write_limit.is_some() {
+                st.class("exhaustive:short-writes");
             }
             st.case(sc.len() >= 2 && !trailing.is_empty(), fnv(&serde_json::to_vec(&c).unwrap()));
             st.class(&format!("exhaustive:len={}", sc.len()));
@@ -522,7 +549,16 @@ pub fn run_c05(tier: Tier) -> i32 {
             }
             let k = finals[(fin.0 as usize * finals.len()) >> 16];
             replies.push(hex(pools.pick(owned[k].3, fin.1)));
-            let c = SeqCase { seq: s.name.to_string(), cmd: hex(pools.pick(s.cmd, *csel)), replies, trailing: hex(trailing), chunks: chunks.clone(), ack: None };
+            let wl = match (*csel as usize + body.len()) % 8 {
+                0 => Some(1usize),
+                1 => Some(3),
+                2 => Some(7),
+                _ => None,
+            };
+            let c = SeqCase { seq: s.name.to_string(), cmd: hex(pools.pick(s.cmd, *csel)), replies, trailing: hex(trailing), chunks: chunks.clone(), ack: None, write_limit: wl };
+            if wl.is_some() {
+                st.class("random:short-writes");
+            }
             st.case(c.replies.len() >= 2 && !trailing.is_empty(), fnv(&serde_json::to_vec(&c).unwrap()));
             st.class(if c.replies.len() > 6 { "random:len>6" } else { "random:len<=6" });
             if c.replies.iter().any(|r| r.len() >= 6 && &r[4..6] == "ff") {
@@ -577,7 +613,7 @@ pub fn run_c05(tier: Tier) -> i32 {
     stats.exhaustive_parts = vec![format!("17 sequences x every well-formed reply script (non-final* . final) of length <= {depth} over the command's reply alphabet")];
     ctx.finish(
         stats,
-        "17 Sequence impls x reply scripts over each command's reply alphabet (Appendix B): all scripts up to the stated depth with representative canonical bodies, then proptest scripts up to length 40 with random canonical bodies, each x 0..64 bytes queued behind the final packet x a chunk schedule x the form of the terminal's positive acknowledgement (80 00 00, with a data block, extended length form). Oracle: the peer's event log equals the trace computed by the reference model (command once and byte-identical, each reply answered by exactly one 80 00 00 before it is handed over and before the next is read, items = the replies' own decode in order, None twice after the first final packet without I/O, trailing bytes unread). The firmware upload stream (data request answered by WriteData) is driven with the C11 generator (payload directories x block sizes x request scripts) and the C11 oracle: each good request answered exactly once with id, offset and file[offset..min(offset+block,size)], completion/abort acknowledged, trailing bytes unread. non-trivial = >= 1 intermediate packet before the final one and trailing bytes present (upload: >= 2 files and a request entitled to a longer block than an earlier short one); distinct by (sequence, command, script bytes, trailing, schedule)",
+        "17 Sequence impls x reply scripts over each command's reply alphabet (Appendix B): all scripts up to the stated depth with representative canonical bodies, then proptest scripts up to length 40 with random canonical bodies, each x 0..64 bytes queued behind the final packet x a chunk schedule x the form of the terminal's positive acknowledgement (80 00 00, with a data block, extended length form) x the write side (whole buffers, or a connection that accepts 1 / 2 / 3 / 5 / 7 bytes per write). Oracle: the peer's event log equals the trace computed by the reference model (command once and byte-identical, each reply answered by exactly one 80 00 00 before it is handed over and before the next is read, items = the replies' own decode in order, None twice after the first final packet without I/O, trailing bytes unread). The firmware upload stream (data request answered by WriteData) is driven with the C11 generator (payload directories x block sizes x request scripts) and the C11 oracle: each good request answered exactly once with id, offset and file[offset..min(offset+block,size)], completion/abort acknowledged, trailing bytes unread. non-trivial = >= 1 intermediate packet before the final one and trailing bytes present (upload: >= 2 files and a request entitled to a longer block than an earlier short one); distinct by (sequence, command, script bytes, trailing, schedule)",
         &["the scripted peer releases reply i+1 only when the client has answered reply i; a poll for data while nothing is released is logged and is itself a violation", "replies are canonical packets of the variant types (table-driven)"],
         false,
     )
@@ -652,6 +688,12 @@ fn faults_at(m: &Model, s: &SeqEntry, pools: &Pools, pos: usize, salt: usize) ->
         }
     }
     out.push(Fault { pos, kind: "eof".into(), bytes: String::new() });
+    // the connection does not end, it breaks: the read fails with an error of some kind, at a packet boundary or inside a packet
+    for kind in ["reset", "aborted", "pipe", "timedout", "other"] {
+        out.push(Fault { pos, kind: format!("read-error:{kind}"), bytes: String::new() });
+        let partial: Vec<u8> = if pos == 0 { vec![0x80, 0x00] } else { let o = &m.owned(s)[salt % m.owned(s).len()]; vec![o.0, o.1, 0x05, 0x01] };
+        out.push(Fault { pos, kind: format!("read-error:{kind}"), bytes: hex(&partial) });
+    }
     out
 }
 
@@ -693,7 +735,7 @@ pub fn run_c06(tier: Tier) -> i32 {
             let positions: Vec<usize> = if pre.is_empty() { vec![0, 1] } else { vec![pre.len() + 1] };
             for pos in positions {
                 for (fi, f) in faults_at(&m, s, &pools, pos, pi).into_iter().enumerate() {
-                    let c = SeqCase { seq: s.name.to_string(), cmd: cmd.clone(), replies: replies.clone(), trailing: String::new(), chunks: CHUNKINGS[(pi + fi) % 4].to_vec(), ack: None };
+                    let c = SeqCase { seq: s.name.to_string(), cmd: cmd.clone(), replies: replies.clone(), trailing: String::new(), chunks: CHUNKINGS[(pi + fi) % 4].to_vec(), ack: None, write_limit: None };
                     st.case(pos >= 2, fnv(&serde_json::to_vec(&(&c, &f)).unwrap()));
                     st.class(&format!("{}@{}", f.kind, if pos == 0 { "ack" } else if pos == 1 { "first-reply" } else { "later-reply" }));
                     if pi == 3 && fi == 5 {
@@ -725,7 +767,7 @@ pub fn run_c06(tier: Tier) -> i32 {
                 let mut script = pre.clone();
                 script.push(*f);
                 let replies: Vec<String> = script.iter().enumerate().map(|(j, v)| hex(pools.pick(owned[*v].3, ((pi * 13 + fi * 5 + j * 7) % 4096) as u16 * 16))).collect();
-                let c = SeqCase { seq: s.name.to_string(), cmd: cmd.clone(), replies: replies.clone(), trailing: String::new(), chunks: CHUNKINGS[(pi + fi) % 4].to_vec(), ack: None };
+                let c = SeqCase { seq: s.name.to_string(), cmd: cmd.clone(), replies: replies.clone(), trailing: String::new(), chunks: CHUNKINGS[(pi + fi) % 4].to_vec(), ack: None, write_limit: None };
                 for w in 0..=replies.len() {
                     st.case(w >= 2, fnv(&serde_json::to_vec(&(&c, w, "write")).unwrap()));
                     st.class(if w == 0 { "write-fails@command" } else if w == replies.len() { "write-fails@ack-of-final-packet" } else { "write-fails@ack-of-intermediate-packet" });
@@ -749,7 +791,7 @@ pub fn run_c06(tier: Tier) -> i32 {
                     continue;
                 }
                 let f = Fault { pos, kind: "foreign".into(), bytes: hex(&[class, instr, 0x00]) };
-                let c = SeqCase { seq: s.name.to_string(), cmd: cmd.clone(), replies: vec![], trailing: String::new(), chunks: vec![], ack: None };
+                let c = SeqCase { seq: s.name.to_string(), cmd: cmd.clone(), replies: vec![], trailing: String::new(), chunks: vec![], ack: None, write_limit: None };
                 n += 1;
                 let r = check_fault(&m, &c, &f);
                 if r.is_err() && bad < 3 {
@@ -772,7 +814,7 @@ pub fn run_c06(tier: Tier) -> i32 {
             let ids: Vec<u8> = files.iter().map(|f| RECOGNISED[f.which].1).collect();
             for nreq in 0..4usize {
                 let requests: Vec<Req> = (0..nreq).map(|k| Req { id: ids[k % 2], offset: (k * 256) as u32, malformed: String::new() }).collect();
-                let c = UploadCase { files: files.clone(), block: 256, password: 123456, requests, ending: "completion".into(), chunks: CHUNKINGS[(i as usize + nreq) % 4].to_vec() };
+                let c = UploadCase { files: files.clone(), block: 256, password: 123456, requests, ending: "completion".into(), chunks: CHUNKINGS[(i as usize + nreq) % 4].to_vec(), write_limit: None };
                 let positions: Vec<usize> = if nreq == 0 { vec![0, 1] } else { vec![nreq + 1] };
                 for pos in positions {
                     let mut faults: Vec<(&str, Vec<u8>)> = vec![("nack", vec![0x84, 0x9a, 0x00]), ("nack", vec![0x84, 0x00, 0x00]), ("eof", vec![]), ("truncated", vec![0x04]), ("truncated", vec![0x04, 0x0c, 0x09, 0x06]), ("truncated", vec![0x06, 0x0f, 0xff, 0x10])];
@@ -822,7 +864,7 @@ pub fn run_c06(tier: Tier) -> i32 {
             let pos = if *at_ack && replies.is_empty() { 0 } else { replies.len() + 1 };
             let fs = faults_at(&m, s, &pools, pos, *salt as usize);
             let f = fs[(*fsel as usize * fs.len()) >> 16].clone();
-            let c = SeqCase { seq: s.name.to_string(), cmd: hex(pools.pick(s.cmd, *csel)), replies, trailing: String::new(), chunks: chunks.clone(), ack: None };
+            let c = SeqCase { seq: s.name.to_string(), cmd: hex(pools.pick(s.cmd, *csel)), replies, trailing: String::new(), chunks: chunks.clone(), ack: None, write_limit: None };
             st.case(pos >= 2, fnv(&serde_json::to_vec(&(&c, &f)).unwrap()));
             st.class(&format!("random:{}", f.kind));
             check_fault(&m, &c, &f)
@@ -832,7 +874,7 @@ pub fn run_c06(tier: Tier) -> i32 {
     stats.exhaustive_parts = vec![format!("17 sequences x every valid reply-script prefix of length <= {depth} x every fault (4 NACK codes, foreign control fields incl. near misses of the expected ones, malformed bodies per reply kind, 5 truncations, EOF) at the position behind the prefix (and at the ack position)"), "17 sequences x all 65 536 control fields outside the expected set, at the acknowledgement position and instead of the first reply".into()];
     ctx.finish(
         stats,
-        "17 Sequence impls (and the firmware upload stream with 0..3 good data requests) x valid script prefixes x one fault {NACK 84 xx, packet outside the reply set, undecodable body inside the reply set, truncated packet + end of stream, end of stream} at the acknowledgement position or instead of reply j, and the connection lost for writing (BrokenPipe) at the command and at every acknowledgement incl. the one of the final packet; exhaustive over prefixes up to the stated depth, then proptest prefixes up to 8 replies with random bodies. Oracle: Ok items for the replies before the fault, exactly one Err, then None twice without I/O, and no byte written once the faulty bytes were released. non-trivial = fault behind at least one acknowledged reply (position >= 2); distinct by (sequence, prefix bytes, fault)",
+        "17 Sequence impls (and the firmware upload stream with 0..3 good data requests) x valid script prefixes x one fault {NACK 84 xx, packet outside the reply set, undecodable body inside the reply set, truncated packet + end of stream, end of stream} at the acknowledgement position or instead of reply j, a read error (connection reset / aborted / broken pipe / timed out / other) at a packet boundary or inside a packet, and the connection lost for writing (BrokenPipe) at the command and at every acknowledgement incl. the one of the final packet; exhaustive over prefixes up to the stated depth, then proptest prefixes up to 8 replies with random bodies. Oracle: Ok items for the replies before the fault, exactly one Err, then None twice without I/O, and no byte written once the faulty bytes were released. non-trivial = fault behind at least one acknowledged reply (position >= 2); distinct by (sequence, prefix bytes, fault)",
         &["'malformed' bodies are used only when both the reference decoder and the packet's own decoder reject them", "for the upload stream the faults are placed behind 0..3 answered data requests (props/c11.rs check_upload_fault)"],
         false,
     )
